@@ -28,7 +28,7 @@ def ctor_kwargs(p):
         fitp['solver'] = p['solver']
     kws = dict(rfm_params={'model': model, 'fit': fitp},
                max_leaf_size=p['L'], device='cpu', verbose=False, random_state=p['dseed'], split_method=p['method'],
-               n_trees=p['trees'], overlap_fraction=p['f'], classification_mode=p['mode'], tuning_metric=p['metric'],
+               n_trees=p['trees'], n_tree_iters=p.get('n_tree_iters', 0), overlap_fraction=p['f'], classification_mode=p['mode'], tuning_metric=p['metric'],
                use_temperature_tuning=p['tune'], split_temperature=p['temp'], temp_tuning_space=p.get('space'),
                keep_weight_frac_in_predict=p['keep'], max_leaf_count_in_ensemble=p['cap'])
     if p.get('cat'):
@@ -249,6 +249,13 @@ def gen_cases(run):
                           bandwidth=5.0, iters=1, L=[1000, 30][k % 2], n=80, d=3, method='random', trees=1, f=0.0, mode='zero_one',
                           metric='accuracy', tune=False, temp=None, space=None, set_temp_after=None, keep=0.99, cap=12, outputs=1,
                           classes=2, pickle=bool(k % 2), solver='log_reg', dseed=r.randint(0, 10 ** 6)))
+    # iterated tree building (n_tree_iters > 0: needs >= 2 target columns): the tree that wins may come from a later iteration
+    for k in range(4 if run.tier == 'quick' else 24):
+        cases.append(dict(family='fitted-models', task='reg', kernel=list(KERNELS[k % 2]), q=1.0, diag=False, adaptive=False, bandwidth=5.0,
+                          iters=r.choice([0, 1]), L=[24, 30][k % 2], n=r.choice([90, 120]), d=3, method=['random', 'random_global_agop'][k % 2] if k % 4 < 2 else 'random',
+                          trees=1 + (k % 2), f=0.0, mode='zero_one', metric=None, tune=bool(k % 2), temp=None, space=[0.0, 0.3] if k % 2 else None,
+                          set_temp_after=None, keep=0.99, cap=12, outputs=2, classes=2, pickle=bool(k % 2), n_tree_iters=[1, 2][k % 2],
+                          dseed=r.randint(0, 10 ** 6)))
     # categorical features with non-identity code vectors and the kernels' categorical path
     cat_kernels = [k for k in KERNELS if k[0] in ('l2', 'l1', 'lpq')]
     for k in range(3 if run.tier == 'quick' else 12):
